@@ -35,6 +35,14 @@ HAND = [
     ("template T() { signal input x; signal output o; signal t; t <-- x >> 1; x === t * 2; o <== t; }", 1),
     ("function f(x) { var y = x; return y; }", 0),
     ("template custom T() { signal input x; signal output o; o <-- x * x * x; }", 0),
+    # several `<--` assignments that share one source range (seeded C08 m4): all inputs of an anonymous call carry the call's
+    # range, all symbols of one declaration the declaration's
+    ("template T() { signal input x; signal output o; o <== V(1)(a <-- x, b <-- x * x * x); }", 2),
+    ("template T() { signal input x; signal output o; o <== V(1)(b <-- x >> 1, a <-- x); }", 2),
+    ("template T() { signal input x; signal u <-- x * x * x, v <-- x >> 1; signal output o; o <== u + v; }", 2),
+    ("template T() { signal input x; signal output u <-- x, v <-- x * x * x, w <== x; }", 2),
+    # a parallel template is not a custom template (seeded C08 m3 concerns files without a main component)
+    ("template parallel T() { signal input x; signal output o; o <-- x * x * x; }", 1),
 ]
 
 
